@@ -209,9 +209,21 @@ class DictDecoder:
         max_score = -1.0
         config = replace(self.config, fail_on_converter_warnings=True)
         decoder = DictDecoder(config=config, context=self.context)
+        is_model = self.context.class_type.is_model
+
+        if not self.config.fail_on_unknown_properties:
+            # The keys none of the classes declares are unknown properties
+            keys = {
+                key
+                for key in keys
+                if any(
+                    is_model(clazz) and self.context.local_names_match({key}, clazz)
+                    for clazz in classes
+                )
+            }
 
         for clazz in classes:
-            if not self.context.class_type.is_model(clazz):
+            if not is_model(clazz):
                 continue
 
             if self.context.local_names_match(keys, clazz):
